@@ -307,3 +307,7 @@ def run(ctx):
 # sensitivity pack (thorough tier): each seeded edit must be reported by the named rule instance
 MUTANTS = [{'name': 'mints-premine-swapped-in-store', 'file': 'src/index/entry.rs', 'old': '      self.mints,\n      self.number,\n      self.premine,', 'new': '      self.premine,\n      self.number,\n      self.mints,', 'expect': ('R35.1', 'RuneEntry', 'slot 4')},
            {'name': 'txid-halves-swapped', 'file': 'src/index/entry.rs', 'old': 'let little_end = u128::from_le_bytes(txid_entry[..16].try_into().unwrap());\n    let big_end = u128::from_le_bytes(txid_entry[16..].try_into().unwrap());', 'new': 'let little_end = u128::from_le_bytes(txid_entry[16..].try_into().unwrap());\n    let big_end = u128::from_le_bytes(txid_entry[..16].try_into().unwrap());', 'expect': ('R35.1', 'InscriptionId', 'slot 0 = txid bytes')}]
+
+
+# behaviour-preserving edits (thorough tier): the rules must stay silent on every one of them
+NEUTRAL = [{'name': 'RuneId::load: bindings renamed', 'file': 'src/index/entry.rs', 'old': '  fn load((block, tx): Self::Value) -> Self {\n    Self { block, tx }\n  }', 'new': '  fn load((b, t): Self::Value) -> Self {\n    Self { block: b, tx: t }\n  }'}]
